@@ -358,6 +358,7 @@ func checkC14(p *Prog, rp *Report) {
 // ---- C15 ------------------------------------------------------------------------------
 
 func checkC15(p *Prog, rp *Report) {
+	defer stateRule(p, rp, "C15-STATE", p.Func("deb", "LoadAr"), p.Method("deb", "Ar", "Next"), p.Func("deb", "Load"))
 	rp.Explanation = "C15-OFFSET: (symbolic-header interpretation of Ar.Next) every returned member advances the offset by 60+size+size%2 with size >= 0 established on the path, so an archive of n bytes yields at most n/60 members; C15-HDRMAGIC: a member is returned only from a header ending 0x60 0x0A (all four byte combinations); C15-SHORT: failed/short reads yield no member and leave the offset alone; C15-TRUNC: (the same interpretation with a concrete size column and a ReaderAt that ends inside or right after the member's data) a member whose recorded size runs past the end of the input is not returned, a complete last member is, whichever way the ReaderAt reports the end; C15-LOOP: (scripted-archive interpretation of the loader) the member loop ends on io.EOF and propagates any other error of Next; C15-DET: with decoy and repeated members every iteration order of the member map gives the same outcome; the header parser walks no map; C15-NOPANIC: ten malformed packages (no control file in the control tarball, empty tarball, unmarshal / constructor / close errors, no members, only debian-binary, empty debian-binary, member names equal to or one byte longer than the prefixes) end in an error or load, never in a panic state; C15-FAMILY: LoadAr / Next agree with an ar(5) reference reader on concrete archives (12 name shapes incl. #1/20); C15-NOFATAL: no panic/log.Fatal/os.Exit reachable from LoadAr, Next, Load in the repository; C15-BOUNDS: constant indexes of the header parser are below the checked header length, name slicing stays within the matched prefix."
 	rp.NotDecided = "that io.SectionReader delivers the bytes of a ReaderAt whose content changes between Next and the read; behaviour of archive/tar and the decompressors on hostile streams; absence of panics inside the standard library."
 	rp.Trusted = []string{"go/types, go/ssa", "io.ReaderAt contract (n < len(p) implies a non-nil error)", "io.SectionReader"}
@@ -505,6 +506,7 @@ func c15Bounds(p *Prog, r *Rule) {
 // ---- C16 ------------------------------------------------------------------------------
 
 func checkC16(p *Prog, rp *Report) {
+	defer stateRule(p, rp, "C16-STATE", p.Func("deb", "Load"), p.Method("deb", "Deb", "CheckDebsig"))
 	rp.Explanation = "CheckDebsig is interpreted abstractly on a Deb whose member index holds debian-binary, control.tar.gz, data.tar.xz and _gpgorigin (plus decoys), with Seek, io.MultiReader and openpgp.CheckDetachedSignature replaced by recording oracles, over every iteration order of the member map. C16-ROLE: only the exact member \"_gpg\"+role is used as signature: an absent role, a prefix of a role and the empty role fail; a missing debian-binary fails. C16-STREAM: the signed data is MultiReader(debian-binary, control, data) in that order, each rewound with Seek(0,0) before, the signature is the role member's data, the keyring is the caller's, and the library's entity and error are returned unchanged; a second check of the same Deb against another keyring is verified again, against that keyring. C16-SAME: with a decoy control.* or data.* member verification fails in every iteration order, and the loader (same scenarios) fails too, so the verified members are the loaded members; repeated names are rejected by the loader."
 	rp.NotDecided = "the OpenPGP library; the bytes of the members (io.SectionReader); that the data member handed to the caller as Deb.Data is re-read from the start by the verifier."
 	rp.Trusted = []string{"go/types, go/ssa", "golang.org/x/crypto/openpgp.CheckDetachedSignature", "io.MultiReader, io.SectionReader.Seek"}
